@@ -386,25 +386,47 @@ def r6_streams_and_text_ranges(ctx):
     f = ix.func(P, "NpBufferedWriter.write")
     d = f.params[1]
     loops = [n for n in body_walk(f.node) if isinstance(n, ast.For) and u(n.iter) == d]
-    ctx.floor("stream loops in NpBufferedWriter.write", len(loops), 2)
+    ctx.floor("stream loops in NpBufferedWriter.write", len(loops), 1)
+    g = CFG(f.node)
+    kinds = set()
+    import re as _re
+    for lp in loops:
+        ln = [n for n in g.nodes if n.ast is lp or (n.kind in ("test", "loop", "for") and n.ast is lp.iter)]
+        for t, lab in (g.guards(ln[0]) if ln else []):
+            if t.kind == "test" and lab in ("T", True) and isinstance(t.ast, ast.Call) and u(t.ast.func) == "isinstance" and u(t.ast.args[0]) == d:
+                ty = t.ast.args[1]
+                kinds |= {u(e) for e in (ty.elts if isinstance(ty, ast.Tuple) else [ty])}
+    if not kinds:   # the loops' own enclosing `if isinstance(data, T)` statements
+        for t in body_walk(f.node):
+            if isinstance(t, ast.If) and isinstance(t.test, ast.Call) and u(t.test.func) == "isinstance" and u(t.test.args[0]) == d and any(lp in list(ast.walk(t)) for lp in loops):
+                ty = t.test.args[1]
+                kinds |= {u(e) for e in (ty.elts if isinstance(ty, ast.Tuple) else [ty])}
+    ctx.ob(f.where, "both kinds of stream (plain and grouped) are written piece by piece", kinds >= {"BnpStream", "grouped_stream"}, str(sorted(kinds)), key="C03-R6|stream-kinds")
     for lp in loops:
         piece = lp.target.elts[-1] if isinstance(lp.target, ast.Tuple) else lp.target
         pv = u(piece)
         exits = [n for st in lp.body for n in walk_local(st) if isinstance(n, (ast.Break, ast.Return))]
         ctx.ob(f.where, "a stream is written to its end: the loop over its pieces has no early exit (an empty piece in the middle does not end the stream)", not exits and not lp.orelse,
                "; ".join(f"line {n.lineno}: {type(n).__name__.lower()}" for n in exits), key=f"C03-R6|stream-loop|{u(lp.target)}")
-        g = CFG(f.node)
         ws = [n for n in g.nodes if n.kind == "stmt" and n.ast in list(ast.walk(lp)) and any(isinstance(c, ast.Call) and u(c.func) == "self.write" and c.args and u(c.args[0]) == pv
                                                                                            for c in walk_local(n.ast))]
         ok = len(ws) == 1
         detail = ""
         if ok:
             tests = [sym.canon(t.ast) + ("" if lab in ("T", True) else "!") for t, lab in g.guards(ws[0]) if t.kind == "test" and t.ast in list(ast.walk(lp))]
-            allowed = {f"(0)<(len({pv}))", f"len({pv})", f"(0)!=(len({pv}))", f"(0)==(len({pv}))!", f"not(len({pv}))!"}
+            allowed = {f"(0)<(len({pv}))", f"len({pv})", f"(0)!=(len({pv}))", f"(0)==(len({pv}))!", f"not(len({pv}))!", f"(1)<=(len({pv}))", f"(1)>(len({pv}))!"}
             extra = [t for t in tests if t not in allowed]
             detail = str(tests)
+            skipping = []
+            for t in list(extra):
+                m = _re.fullmatch(r"\((\d+)\)(<=|<)\(len\(" + _re.escape(pv) + r"\)\)", t)
+                if m and (int(m.group(1)) >= 2 or (m.group(2) == "<" and int(m.group(1)) >= 1)):
+                    skipping.append(t)
+                    extra.remove(t)
             if extra:
                 raise Unrecognised(f"{f.where}: a stream piece is written under a condition the checker does not know: {extra}")
+            if skipping:
+                ok = False
         ctx.ob(f.where, "each piece is handed to the same writer; only empty pieces are skipped", ok, detail, key=f"C03-R6|stream-piece|{u(lp.target)}")
     # (b)
     OL = "bionumpy.io.one_line_buffer"
